@@ -97,11 +97,12 @@ impl<A: Actor> Addr<A> {
     }
 
     pub fn running(&self) -> bool {
-        self.running.peek().is_none()
+        !self.stopped()
     }
 
     pub fn stopped(&self) -> bool {
-        self.running.peek().is_some()
+        // `peek` only sees a result that some clone has already polled out of the shared future
+        self.running.peek().is_some() || self.running.clone().now_or_never().is_some()
     }
 
     pub async fn call<M: Message>(&self, msg: M) -> Result<M::Response>
